@@ -142,6 +142,7 @@ func isReceiverOf(v ssa.Value, fn *ssa.Function) bool {
 var c10CopyExempt = map[string]string{}
 
 func c10(c *Ctx) {
+	c10HistorySkipCounter(c, "C10.4/history-skip-counter-starts-after-memory-versions")
 	c10ReaderRestart(c, "C10.7/reader-restart-resets-iteration-state")
 	// ---- C10.1 copy-on-write -----------------------------------------------------------------------
 	r := "C10.1/copy-on-write"
@@ -688,5 +689,50 @@ func readerRestart(c *Ctx, r, rdT, stName string, readers []string, withRepos bo
 	}
 	if n < floor {
 		c.undecided(r, "floor", fmt.Sprintf("%d iteration-state fields of %s analysed, expected at least %d", n, stName, floor))
+	}
+}
+
+// c10HistorySkipCounter: leafValue.history lists versions newest first: the len(lv.timedValues) versions held in
+// memory, then the records of the history log. A window that starts at version index initAt skips the log versions
+// whose index is below initAt; the index of the first log version is the number of in-memory versions, so the counter
+// compared with initAt starts from len(lv.timedValues) (a constant start is right only for one particular number of
+// unflushed versions).
+func c10HistorySkipCounter(c *Ctx, r string) {
+	f := c.mustFn(r, "embedded/tbtree.(*leafValue).history")
+	if f == nil {
+		return
+	}
+	n := 0
+	allInstrs(f, false, func(in ssa.Instruction) {
+		bo, ok := in.(*ssa.BinOp)
+		if !ok || bo.Op != token.LSS {
+			return
+		}
+		ph, ok := bo.X.(*ssa.Phi)
+		if !ok || !isUnsigned(ph.Type()) {
+			return
+		}
+		// a counter: one incoming edge is itself plus one
+		selfInc := dependsOn(ph, func(v ssa.Value) bool {
+			add, ok := v.(*ssa.BinOp)
+			return ok && add.Op == token.ADD && add.X == ssa.Value(ph)
+		})
+		if !selfInc {
+			return
+		}
+		n++
+		dep := dependsOn(ph, func(v ssa.Value) bool {
+			cl, ok := v.(*ssa.Call)
+			if !ok {
+				return false
+			}
+			b, isB := cl.Call.Value.(*ssa.Builtin)
+			return isB && b.Name() == "len" && hasFieldSuffix(desc(cl.Call.Args[0]), "timedValues")
+		})
+		c.check(dep, r, fmt.Sprintf("%s:counter#%d", fnName(f), n), c.pos(bo.Pos()), "the version index compared with the window start begins at len(lv.timedValues)",
+			"the version index compared with the window start ("+desc(bo.Y)+") does not start from the number of in-memory versions: with another number of unflushed versions the window is shifted")
+	})
+	if n < 1 {
+		c.undecided(r, "floor", "the skip counter of the history-log walk was not recognised")
 	}
 }
